@@ -62,6 +62,7 @@ type World struct {
 	NextWID    uint32
 	attachA    map[*Conn]int // index into AckLog at attach time
 	statPolls  int
+	beat       int64 // time of the last step begun (unix ns, atomic): the progress watchdog of RunWorker reads it
 	snapModels map[string]*snapModel
 	rest       http.Handler // the controller's management API (what an operator or the CSI driver sees)
 	rdv        *rendezvous  // set while an operation's replicas are to answer at the same instant
@@ -184,6 +185,7 @@ func (w *World) NewFake(rev int64) *Fake {
 }
 
 func (w *World) rec(s Step) *Step {
+	atomic.StoreInt64(&w.beat, time.Now().UnixNano())
 	w.Log = append(w.Log, s)
 	p := &w.Log[len(w.Log)-1]
 	if w.Journal != nil {
@@ -309,6 +311,7 @@ func (w *World) CheckSettled(after string) {
 	if w.Dead {
 		return
 	}
+	atomic.StoreInt64(&w.beat, time.Now().UnixNano())
 	w.pollStats()
 	if !w.Settle() {
 		w.FailAny([]string{"C05", "C18", "C03", "C13", "C02", "C04", "C15"}, "settle:replica-with-fired-monitor-still-attached:"+after, "a replica whose monitor reported a failure (or was stopped) is still attached after 5s: "+w.Describe())
